@@ -6,53 +6,53 @@ package c02
 // operand, a condition, a bound, an assignment target ...  These cores run bare
 // and under one wrapper (MaxDepth 1).
 var exprCores = []core{
-	{"expr/hostarg-last", "s(<-never)", true, 1},
-	{"expr/hostarg-first", "h2(<-never, 1)", true, 1},
-	{"expr/hostarg-second", "h2(1, <-never)", true, 1},
-	{"expr/hostarg-variadic", "hv(1, <-never)", true, 1},
-	{"expr/hostarg-variadic-only", "hv(<-never)", true, 1},
-	{"expr/hostarg-send", "h2(never <- 1, 1)", true, 1},
-	{"expr/scriptarg", "func k1(a) { s(1) }\nk1(<-never)", true, 1},
-	{"expr/scriptarg-second", "func k2(a, b) { s(1) }\nk2(1, <-never)", true, 1},
-	{"expr/array-elem", "x = [1, <-never]", true, 1},
-	{"expr/map-value", "x = {\"a\": <-never}", true, 1},
-	{"expr/binary-right", "x = 1 + (<-never)", true, 1},
-	{"expr/binary-left", "x = (<-never) + 1", true, 1},
-	{"expr/unary", "x = -(<-never)", true, 1},
-	{"expr/and-right", "x = true && (<-never)", true, 1},
-	{"expr/or-right", "x = false || (<-never)", true, 1},
-	{"expr/if-cond", "if <-never { s(1) }", true, 1},
-	{"expr/switch-subject", "switch <-never {\ncase 1:\n\ts(1)\n}", true, 1},
-	{"expr/switch-case", "switch 1 {\ncase <-never:\n\ts(1)\n}", true, 1},
-	{"expr/ternary-cond", "x = (<-never) ? 1 : 2", true, 1},
-	{"expr/ternary-branch", "x = true ? (<-never) : 2", true, 1},
-	{"expr/coalesce-left-operand", "x = (<-never) ?? 1", true, 1},
-	{"expr/index", "x = long[<-never]", true, 1},
-	{"expr/slice-bound", "x = long[0:<-never]", true, 1},
-	{"expr/index-target", "long[<-never] = 1", true, 1},
-	{"expr/index-store", "long[0] = <-never", true, 1},
-	{"expr/member-store", "longmap.a = <-never", true, 1},
-	{"expr/forin-subject", "for i in <-never { s(1) }", true, 1},
-	{"expr/cfor-init", "for i = <-never; i < 1; i++ { s(1) }", true, 1},
-	{"expr/cfor-cond", "for i = 0; i < (<-never); i++ { s(1) }", true, 1},
-	{"expr/loop-cond", "for <-never { s(1) }", true, 1},
-	{"expr/len-arg", "x = len(<-never)", true, 1},
-	{"expr/throw-operand", "throw <-never", true, 1},
-	{"expr/return-operand", "func r1() { return <-never }\nr1()", true, 1},
-	{"expr/return-second", "func r2() { return 1, <-never }\nr2()", true, 1},
-	{"expr/lets-multi", "x, y = 1, <-never", true, 1},
-	{"expr/var-init", "var x = (<-never)", true, 1},
-	{"expr/defer-hostarg", "func d1() { defer s(<-never); s(1) }\nd1()", true, 1},
-	{"expr/make-len", "x = make([]int64, <-never)", true, 1},
-	{"expr/delete-key", "delete(longmap, <-never)", true, 1},
-	{"expr/in-left", "x = (<-never) in long", true, 1},
-	{"expr/in-right", "x = 1 in [<-never]", true, 1},
-	{"expr/anon-arg", "x = func(a) { return a }(<-never)", true, 1},
-	{"expr/chan-send-value", "rdy = make(chan int64, 1)\nrdy <- <-never", true, 1},
-	{"expr/string-concat", "x = \"a\" + (<-never)", true, 1},
-	{"expr/compare", "x = (<-never) == 1", true, 1},
-	{"expr/incr-target", "long[<-never]++", true, 1},
-	{"expr/opassign", "x = 1\nx += <-never", true, 1},
+	{"expr/hostarg-last", "s(<-never)", true, 1, false},
+	{"expr/hostarg-first", "h2(<-never, 1)", true, 1, false},
+	{"expr/hostarg-second", "h2(1, <-never)", true, 1, false},
+	{"expr/hostarg-variadic", "hv(1, <-never)", true, 1, false},
+	{"expr/hostarg-variadic-only", "hv(<-never)", true, 1, false},
+	{"expr/hostarg-send", "h2(never <- 1, 1)", true, 1, false},
+	{"expr/scriptarg", "func k1(a) { s(1) }\nk1(<-never)", true, 1, false},
+	{"expr/scriptarg-second", "func k2(a, b) { s(1) }\nk2(1, <-never)", true, 1, false},
+	{"expr/array-elem", "x = [1, <-never]", true, 1, false},
+	{"expr/map-value", "x = {\"a\": <-never}", true, 1, false},
+	{"expr/binary-right", "x = 1 + (<-never)", true, 1, false},
+	{"expr/binary-left", "x = (<-never) + 1", true, 1, false},
+	{"expr/unary", "x = -(<-never)", true, 1, false},
+	{"expr/and-right", "x = true && (<-never)", true, 1, false},
+	{"expr/or-right", "x = false || (<-never)", true, 1, false},
+	{"expr/if-cond", "if <-never { s(1) }", true, 1, false},
+	{"expr/switch-subject", "switch <-never {\ncase 1:\n\ts(1)\n}", true, 1, false},
+	{"expr/switch-case", "switch 1 {\ncase <-never:\n\ts(1)\n}", true, 1, false},
+	{"expr/ternary-cond", "x = (<-never) ? 1 : 2", true, 1, false},
+	{"expr/ternary-branch", "x = true ? (<-never) : 2", true, 1, false},
+	{"expr/coalesce-left-operand", "x = (<-never) ?? 1", true, 1, false},
+	{"expr/index", "x = long[<-never]", true, 1, false},
+	{"expr/slice-bound", "x = long[0:<-never]", true, 1, false},
+	{"expr/index-target", "long[<-never] = 1", true, 1, false},
+	{"expr/index-store", "long[0] = <-never", true, 1, false},
+	{"expr/member-store", "longmap.a = <-never", true, 1, false},
+	{"expr/forin-subject", "for i in <-never { s(1) }", true, 1, false},
+	{"expr/cfor-init", "for i = <-never; i < 1; i++ { s(1) }", true, 1, false},
+	{"expr/cfor-cond", "for i = 0; i < (<-never); i++ { s(1) }", true, 1, false},
+	{"expr/loop-cond", "for <-never { s(1) }", true, 1, false},
+	{"expr/len-arg", "x = len(<-never)", true, 1, false},
+	{"expr/throw-operand", "throw <-never", true, 1, false},
+	{"expr/return-operand", "func r1() { return <-never }\nr1()", true, 1, false},
+	{"expr/return-second", "func r2() { return 1, <-never }\nr2()", true, 1, false},
+	{"expr/lets-multi", "x, y = 1, <-never", true, 1, false},
+	{"expr/var-init", "var x = (<-never)", true, 1, false},
+	{"expr/defer-hostarg", "func d1() { defer s(<-never); s(1) }\nd1()", true, 1, false},
+	{"expr/make-len", "x = make([]int64, <-never)", true, 1, false},
+	{"expr/delete-key", "delete(longmap, <-never)", true, 1, false},
+	{"expr/in-left", "x = (<-never) in long", true, 1, false},
+	{"expr/in-right", "x = 1 in [<-never]", true, 1, false},
+	{"expr/anon-arg", "x = func(a) { return a }(<-never)", true, 1, false},
+	{"expr/chan-send-value", "rdy = make(chan int64, 1)\nrdy <- <-never", true, 1, false},
+	{"expr/string-concat", "x = \"a\" + (<-never)", true, 1, false},
+	{"expr/compare", "x = (<-never) == 1", true, 1, false},
+	{"expr/incr-target", "long[<-never]++", true, 1, false},
+	{"expr/opassign", "x = 1\nx += <-never", true, 1, false},
 }
 
 func init() { cores = append(cores, exprCores...) }
